@@ -93,6 +93,8 @@ type Worker struct {
 	inInit           bool
 	fastOne, fastTwo int64
 	pools map[*Value][]Value
+	// sync.Map contents, per sync.Map address (path-local)
+	syncMaps map[*Value]*Map
 	lockDepth int
 	lockSnap  string
 	solverBase       struct {
